@@ -31,30 +31,62 @@ def check(ctx, rep, tier):
     rep.assume("not decided: finiteness of the log-odds of an arbitrary caller-supplied model")
 
 
+def _score_of_param(b, pname, amap=None):
+    """True: the expression is <pname>.score; False: it is visibly something else about <pname>
+    (another attribute, the score negated or combined); None: not readable here"""
+    if amap and isinstance(b, ast.Name) and b.id in amap:
+        try:
+            b = ast.parse(amap[b.id], mode="eval").body
+        except SyntaxError:
+            return None
+    if isinstance(b, ast.Attribute) and isinstance(b.value, ast.Name) and b.value.id == pname:
+        return b.attr == "score"
+    if isinstance(b, ast.UnaryOp) and isinstance(b.op, ast.USub):
+        r = _score_of_param(b.operand, pname, amap)
+        return False if r is True else r
+    if isinstance(b, (ast.Tuple, ast.List)) and b.elts:
+        # a composite key whose first component is not the score orders by something else
+        r = _score_of_param(b.elts[0], pname, amap)
+        return False if r is False else None
+    # an expression over the candidate that never reads its score cannot order by score
+    mentions = any(isinstance(x, ast.Name) and x.id == pname for x in ast.walk(b))
+    reads_score = any(isinstance(x, ast.Attribute) and x.attr == "score" for x in ast.walk(b))
+    calls_unknown = any(isinstance(x, ast.Call) and not (isinstance(x.func, ast.Name) and x.func.id in (
+        "len", "abs", "int", "float", "str", "min", "max", "sum", "round", "tuple")) for x in ast.walk(b))
+    if mentions and not reads_score and not calls_unknown:
+        return False
+    return None
+
+
 def _key_is_score(k, cm=None):
-    """lambda p: p.score / attrgetter('score') / a module function that returns its argument's score"""
+    """lambda p: p.score / attrgetter('score') / a module function that returns its argument's score.
+    True / False (certainly another key) / None (not readable)"""
     if isinstance(k, ast.Name) and cm is not None and k.id not in cm.funcs:
         # a module-level constant holding the key function
         for st_node in cm.tree.body:
             if isinstance(st_node, ast.Assign) and len(st_node.targets) == 1 and isinstance(st_node.targets[0], ast.Name) \
                     and st_node.targets[0].id == k.id:
-                return _key_is_score(st_node.value, cm) if not isinstance(st_node.value, ast.Name) else False
-        return False
+                return _key_is_score(st_node.value, cm) if not isinstance(st_node.value, ast.Name) else None
+        return None
     if isinstance(k, ast.Name) and cm is not None and k.id in cm.funcs:
         g = cm.funcs[k.id]
-        body = [b for b in g.body if not (isinstance(b, ast.Expr) and isinstance(b.value, ast.Constant))]
-        if len(body) == 1 and isinstance(body[0], ast.Return) and len(g.args.args) == 1 and not g.decorator_list:
-            b = body[0].value
-            return isinstance(b, ast.Attribute) and b.attr == "score" and isinstance(b.value, ast.Name) \
-                and b.value.id == g.args.args[0].arg
-        return False
+        from .common import alias_map
+        body = [b for b in g.body if not (isinstance(b, ast.Expr) and isinstance(b.value, ast.Constant))
+                and not isinstance(b, ast.Assert)]
+        rets = [b for b in body if isinstance(b, ast.Return)]
+        others = [b for b in body if not isinstance(b, (ast.Return, ast.Assign, ast.AnnAssign))]
+        if len(rets) == 1 and not others and len(g.args.args) == 1 and not g.decorator_list and rets[0].value is not None:
+            return _score_of_param(rets[0].value, g.args.args[0].arg, alias_map(g))
+        return None
     if isinstance(k, ast.Lambda):
-        b = k.body
-        return isinstance(b, ast.Attribute) and b.attr == "score" and isinstance(b.value, ast.Name) \
-            and k.args.args and b.value.id == k.args.args[0].arg
+        if not k.args.args:
+            return None
+        return _score_of_param(k.body, k.args.args[0].arg)
     if isinstance(k, ast.Call) and e1.callee_name(k.func) == "attrgetter" and k.args:
-        return isinstance(k.args[0], ast.Constant) and k.args[0].value == "score"
-    return False
+        if isinstance(k.args[0], ast.Constant):
+            return k.args[0].value == "score"
+        return None
+    return None
 
 
 def _selection(ctx, rep, cm):
@@ -118,6 +150,7 @@ def _selection(ctx, rep, cm):
         return ok_, "" if ok_ else "no key function: the order is CTParse.__lt__, which compares {}".format(
             norm(rets[0])[:80] if rets else "?")
     key_detail = [""]
+    key_unknown = []
     stream_ok = False
     for term, r in T.returns:
         if not isinstance(term, tuple) or not term:
@@ -131,17 +164,25 @@ def _selection(ctx, rep, cm):
                 ok, key_detail[0] = ordering_is_score()
             else:
                 ok = _key_is_score(term[2], cm)
+                if ok is None:
+                    key_unknown.append(norm(term[2]) if isinstance(term[2], ast.AST) else str(term[2]))
             src = term[1]
         elif term[0] == "item" and isinstance(term[1], tuple) and term[1] and term[1][0] == "sorted":
             srt = term[1]
             rev = is_true(srt[3])
-            ok = _key_is_score(srt[2], cm) and ((term[2] == "-1" and not rev) or (term[2] == "0" and rev))
+            kq = _key_is_score(srt[2], cm)
+            if kq is None:
+                key_unknown.append(norm(srt[2]) if isinstance(srt[2], ast.AST) else str(srt[2]))
+            ok = None if kq is None else (kq and ((term[2] == "-1" and not rev) or (term[2] == "0" and rev)))
             src = srt[1]
         elif term[0] == "item" and isinstance(term[1], tuple) and term[1] and term[1][0] == "reversed" and \
                 isinstance(term[1][1], tuple) and term[1][1] and term[1][1][0] == "sorted":
             srt = term[1][1]
             rev = is_true(srt[3])
-            ok = _key_is_score(srt[2], cm) and ((term[2] == "0" and not rev) or (term[2] == "-1" and rev))
+            kq = _key_is_score(srt[2], cm)
+            if kq is None:
+                key_unknown.append(norm(srt[2]) if isinstance(srt[2], ast.AST) else str(srt[2]))
+            ok = None if kq is None else (kq and ((term[2] == "0" and not rev) or (term[2] == "-1" and rev)))
             src = srt[1]
         elif term[0] == "item":
             ok = False
@@ -152,9 +193,12 @@ def _selection(ctx, rep, cm):
         sel_ok = ok if sel_ok is None else (sel_ok and ok)
         if src is not None and whole_stream(src):
             stream_ok = True
-    if sel_ok is None:
-        rep.violated("selection", cm.rel + "::ctparse::returned candidate", where,
-                     "no recognised best-score selection over the collected candidates")
+    if key_unknown and sel_ok is not False:
+        rep.undecided("selection", cm.rel + "::ctparse::returned candidate", where,
+                      "the ordering key {} is not recognised as the score".format(key_unknown[0][:60]))
+    elif sel_ok is None:
+        rep.undecided("selection", cm.rel + "::ctparse::returned candidate", where,
+                      "no recognised best-score selection over the collected candidates")
     else:
         rep.add("selection", cm.rel + "::ctparse::returned candidate", where, bool(sel_ok),
                 "" if sel_ok else "the returned element is not a maximal-score element of the list" +
